@@ -5,9 +5,9 @@
    tie to /repo is the differential run of harness/props/c02.py
    (model/JweCases.v), where O is the finite table recorded from the real run. *)
 From Coq Require Import Lia.
-From Model Require Import JweBase JweCrypto JweMsg JweCases C02Examples.
+From Model Require Import JweBase JweCrypto JweMsg JweKeys JweCases C02Examples C02KeyExamples.
 From Gen Require Import Tables.
-From Proofs Require Import C02Proofs.
+From Proofs Require Import C02Proofs C02Keys.
 Open Scope N_scope.
 
 (* ---- 1. soundness: what an accepted token implies (all serializations) ----
@@ -39,6 +39,53 @@ Theorem c02_sound : forall O g o m,
     enc_decrypt O e (j_ct o) (j_tag o) cek (j_iv o) aad = Ok msg /\
     unzip O g (j_prot o) msg = Ok m.
 Proof. exact perform_decrypt_sound. Qed.
+
+(* ---- 1b. soundness WITH key resolution (model/JweKeys.v: guess_key over Key / KeySet / callable, "kid" of the
+   MERGED header, KeySet.get_by_kid, check_use("enc"), _guess_sender_key / "skid"):
+   [resolved o src ssrc n r] = the n-th recipient's key is guess_key(src) on ITS merged header, passed
+   check_use("enc"), and its sender key (when a sender source is given and non-empty) is the one found by
+   "skid" (KeySet) or the Key itself, also use-checked ---- *)
+Theorem c02_sound_keys_compact : forall O g value src ssrc m o,
+  decrypt_compact_k O g value src ssrc = Ok (m, o) ->
+  authentic O g o m /\
+  (forall n r, nth_error (j_recips o) n = Some r -> resolved o src ssrc n r) /\
+  exists hseg rest, split_dot value = hseg :: rest /\ dec_aad O o = Ok hseg.
+Proof. exact decrypt_compact_k_sound. Qed.
+
+Theorem c02_sound_keys_json : forall O g data src ssrc m o,
+  decrypt_json_k O g data src ssrc = Ok (m, o) ->
+  authentic O g o m /\
+  (forall n r, nth_error (j_recips o) n = Some r -> resolved o src ssrc n r) /\
+  exists b64p, seg_bytes data "protected" = Ok b64p /\
+               dec_aad O o = Ok (aad_of (j_ser o) b64p (j_aad o)).
+Proof. exact decrypt_json_k_sound. Qed.
+
+(* a KeySet yields a MEMBER that carries the kid of the merged header (or its only member when there is no kid) *)
+Theorem c02_key_by_kid : forall ks idx hs h k,
+  hs = Ok h -> guess_key (KPlain (KSet ks)) idx hs = Ok k ->
+  In k ks /\ (py_eq (kk_kid k) (hget h "kid") = true \/ (hget h "kid" = PNone /\ ks = [k])).
+Proof. exact guess_key_keyset_kid. Qed.
+
+Theorem c02_kid_unknown : forall ks kid,
+  (forall k, In k ks -> py_eq (kk_kid k) kid = false) -> (kid <> PNone \/ length ks <> 1%nat) ->
+  get_by_kid ks kid = Err (EJose InvalidKeyIdError).
+Proof. exact get_by_kid_unknown. Qed.
+
+(* a key declared for another use than "enc" is refused (recipient and sender keys alike) *)
+Theorem c02_use_checked : forall k,
+  (check_use_enc k = Ok tt -> py_truth (kk_use k) = false \/ py_eq (kk_use k) (PStr (s_ "enc")) = true) /\
+  (py_truth (kk_use k) = true -> py_eq (kk_use k) (PStr (s_ "enc")) = false ->
+   check_use_enc k = Err (EJose UnsupportedKeyUseError)).
+Proof. exact use_checked. Qed.
+
+(* non-vacuity on recorded runs: kid "right" in the per-recipient header wins over kid "decoy" in the shared
+   unprotected header and selects the second member of the KeySet; use=sig and an unknown kid are refused *)
+Example c02_keys_nonvacuous :
+  map jwe_check [ex_keyset_kid; ex_keyset_use_sig; ex_keyset_unknown_kid] = [true; true; true] /\
+  (match jwe_run ex_keyset_kid with OD (Ok _) => true | _ => false end) = true /\
+  (match jwe_run ex_keyset_use_sig with OD (Err (EJose UnsupportedKeyUseError)) => true | _ => false end) = true /\
+  (match jwe_run ex_keyset_unknown_kid with OD (Err (EJose InvalidKeyIdError)) => true | _ => false end) = true.
+Proof. vm_compute. repeat split. Qed.
 
 (* non-vacuity: recorded real runs are accepted by the model (compact dir+CBC-HS,
    flattened A128KW+GCM with aad, compact ECDH-ES, general JSON with 2 recipients) *)
@@ -235,6 +282,11 @@ Proof. exact tamper_ek_aeskw. Qed.
 Print Assumptions c02_sound_compact.
 Print Assumptions c02_sound_json.
 Print Assumptions c02_sound.
+Print Assumptions c02_sound_keys_compact.
+Print Assumptions c02_sound_keys_json.
+Print Assumptions c02_key_by_kid.
+Print Assumptions c02_kid_unknown.
+Print Assumptions c02_use_checked.
 Print Assumptions c02_aad_is_received_compact.
 Print Assumptions c02_aad_is_received.
 Print Assumptions c02_cbc_tag_first.
